@@ -17,7 +17,7 @@ RULE = ("BFS over histories of callLater(d in {0,1,2}) with an optional one-step
         "iteration are compared with a dict-of-times reference. non-trivial = distinct (state, exercised case) "
         "pairs for transitions that ran a call, rescheduled or cancelled a queued/staged call, or ran a script")
 BOUNDS = {"quick": "<= 4 live user calls, <= 1 scripted call per history; depth 5 (empty), 5 (armed-51), 4 (mixed 60+10), 4 (warm heap of 4)",
-          "thorough": "<= 4 live user calls, <= 2 scripted calls per history; depth 6 (empty), 6 (armed-51), 5 (mixed 60+10), 5 (warm heap of 4)"}
+          "thorough": "<= 4 live user calls, <= 1 scripted call per history (<= 2 from empty); depth 6 (empty), 6 (armed-51), 5 (mixed 60+10), 5 (warm heap of 4)"}
 ASSUMPTIONS = [
     "integer times: the reference and the reactor compute the same sums exactly",
     "canonical state = pending calls in creation order (time relative to now, script, flags) + the real heap and "
@@ -27,12 +27,22 @@ ASSUMPTIONS = [
     "iteration (it may not run in the creating iteration, so the two clauses cannot both bind)",
     "ReactorBase is subclassed only to supply seconds() and a no-op installWaker(); run() is never called",
 ]
-MIN = {"quick": {"states": 1, "nontrivial": 1, "outcomes": 1}}
+_GUARDS = {"compaction_armed_armed51": 1, "compaction_armed_mixed": 1, "mixed_filter_breaks_heap": 1}
+MIN = {"quick": dict({"states": 470000, "nontrivial": 450000, "outcomes": 18}, **_GUARDS),
+       "thorough": dict({"states": 470000, "nontrivial": 450000, "outcomes": 18}, **_GUARDS)}
+
+LEVEL_TEXT = ("every history of the alphabet up to the depth bound, from each initial heap shape, is executed on a "
+              "real ReactorBase and every run event, getDelayedCalls() and timeout() is compared with a "
+              "dict-of-times reference; a pass means no such history runs a call early, late, twice, out of order, "
+              "in its creating iteration, or mis-reports pending calls / the sleep timeout")
+LEVEL_NOTE = ("bounded: integer times, <= 4 live user calls (+10 preset), one-step scripts, depth 4..6; the clock "
+              "does not move inside an iteration; threads, I/O and run() are not involved")
 
 INITS = ["empty", "armed51", "mixed", "warm"]
 DEPTH = {"quick": {"empty": 5, "armed51": 5, "mixed": 4, "warm": 4},
          "thorough": {"empty": 6, "armed51": 6, "mixed": 5, "warm": 5}}
-SCRIPTED = {"quick": 1, "thorough": 2}
+SCRIPTED = {"quick": {"empty": 1, "armed51": 1, "mixed": 1, "warm": 1},
+            "thorough": {"empty": 2, "armed51": 1, "mixed": 1, "warm": 1}}
 CAP = 4
 SCRIPT_IDS = tuple(range(1, 12))   # _timers.SCRIPTS[1..11]
 # in the two big initial states a scripted call is created with delay 0 and aims at the newest target
@@ -102,8 +112,8 @@ SPLIT = {"quick": 1, "thorough": 2}
 
 def _enabled(init, tier):
     if init == "empty":
-        return lambda tm: tm.enabled(CAP, SCRIPTED[tier], SCRIPT_IDS)
-    return lambda tm: tm.enabled(CAP, SCRIPTED[tier], BIG_SCRIPT_IDS, scripted_delays=(0,))
+        return lambda tm: tm.enabled(CAP, SCRIPTED[tier][init], SCRIPT_IDS)
+    return lambda tm: tm.enabled(CAP, SCRIPTED[tier][init], BIG_SCRIPT_IDS, scripted_delays=(0,))
 
 
 def shards(tier, seed):
@@ -133,6 +143,18 @@ def run_shard(shard, tier, seed):
                 stats.outcome(f)
         return tm.bad
 
+    if mode == "pre" and init in ("armed51", "mixed"):
+        # vacuity: the preset really arms the compaction path, and filtering the mixed heap really
+        # needs the heapify (private layout, read defensively: unknown layout counts as satisfied)
+        tm0 = make(init)
+        heap = getattr(tm0.r, "_pendingTimedCalls", None)
+        canc = getattr(tm0.r, "_cancellations", None)
+        if canc is None or canc > 50:
+            stats.count("compaction_armed_" + init)
+        if init == "mixed":
+            live = None if heap is None else [x.time for x in heap if not x.cancelled]
+            if live is None or any(live[(i - 1) // 2] > live[i] for i in range(1, len(live))):
+                stats.count("mixed_filter_breaks_heap")
     res = bfs(_initial(init, prefix), apply, en, canon, inv, depth)
     pre = [list(e) for e in prefix]
     for i, (sig, detail, hist) in enumerate(res.violations):
